@@ -15,8 +15,8 @@ import (
 // plugin-side ParseCNIArgs + JSON decoding (cni/ipam.Allocate) -> IPInfoToResult.
 // ASSUME: C13: encoding/json is replaced by the engine's tag-aware codec (real text for concrete values, an abstract document when a leaf is symbolic); the net package's CIDR text codec is trusted
 
-func vC13(topo, k int, vlan uint16, symbolic bool) {
-	b := schedulerplugin.VerifBindForC13(topo, k, vlan)
+func vC13(topo, k int, symbolic bool, vlans ...uint16) {
+	b := schedulerplugin.VerifBindForC13(topo, k, vlans...)
 	if b == nil || len(b.IPs) == 0 {
 		return
 	}
@@ -57,17 +57,17 @@ func vC13(topo, k int, vlan uint16, symbolic bool) {
 	_ = cniutil.CmdDel(vReq("verif-c13", dir).CmdArgs, -1)
 }
 
-// BOUND: topologies {0,1,2,3} (masks /24 and /16, two gateways, VLANs 2 and 3 -> overridden); k = 0..3 requested single-address ranges (1..3 IPs per pod); VLAN id symbolic over all 2^16 values; network selection {default list, ENI network}
+// BOUND: topologies {0,1,2,3} (masks /24 and /16, two gateways, VLANs 2 and 3 -> overridden); k = 0..3 requested single-address ranges taken alternately from both ends of the address list (1..3 IPs per pod, from one or two pools); two VLAN ids (one per pool) symbolic over all 2^16 values each; network selection {default list, ENI network}
 func VerifC13_q_endToEndSymbolicVlan() {
 	topo := nondetChoice(4)
 	k := nondetChoice(4)
-	vC13(topo, k, nondetU16(), true)
+	vC13(topo, k, true, nondetU16(), nondetU16())
 }
 
-// BOUND: same with concrete VLAN ids {0, 2, 4094, 65535}: the annotation and the CNI_ARGS string are the real texts, so the key=value;... framing of the JSON document is exercised byte for byte
+// BOUND: same with concrete VLAN ids {0, 2, 4094, 65535} for the first pool and 7 for the second: the annotation and the CNI_ARGS string are the real texts, so the key=value;... framing of the JSON document is exercised byte for byte
 func VerifC13_q_endToEndConcrete() {
 	topo := nondetChoice(4)
 	k := nondetChoice(4)
 	vlan := []uint16{0, 2, 4094, 65535}[nondetChoice(4)]
-	vC13(topo, k, vlan, false)
+	vC13(topo, k, false, vlan, 7)
 }
